@@ -1,5 +1,6 @@
 // C10 — reserved feature bits are refused at every entry point; enabled ones work (feature-admission model).
 #include "gen.hpp"
+#include <thread>
 using namespace vf;
 
 static const lib::Registry* REG;
@@ -24,7 +25,10 @@ static std::string oracle(const Case& c) {
     std::string calls = c.bytes("calls"); unsigned m = 0; bool any = false;
     for (size_t i = 0; i + 4 <= calls.size(); i += 4) {
         unsigned arg = (uint8_t)calls[i] | ((uint8_t)calls[i + 1] << 8) | ((uint8_t)calls[i + 2] << 16) | ((unsigned)(uint8_t)calls[i + 3] << 24);
-        int r = polyseed_enable_features(arg); any = true;
+        int r; bool last = i + 8 > calls.size();
+        if (last && c.u("otherthread")) { std::thread th([&]() { r = polyseed_enable_features(arg); }); th.join(); ev.count("enabling-call-from-another-thread"); }   /* the mask is process-wide: a call made (and completed) on another thread counts like any other */
+        else r = polyseed_enable_features(arg);
+        any = true;
         if (r != popcount3(arg)) return "enable_features(" + std::to_string(arg) + ") returned " + std::to_string(r) + ", must be the number of user bits set (" + std::to_string(popcount3(arg)) + ")";
         m = arg & 7u; // the most recent call wins
     }
@@ -102,7 +106,7 @@ static void run() {
         int n = *in_range<int>(1, 7); std::string calls;
         for (int i = 0; i < n; i++) calls += le32s(*rc::gen::weightedOneOf<unsigned>({{5, in_range<unsigned>(0, 8)}, {1, rc::gen::map(vf::u64(), [](uint64_t x) { return (unsigned)x; })}, {1, rc::gen::map(in_range<unsigned>(0, 8), [](unsigned x) { return x | 0xFFFFFFF8u; })}}));
         Case c; c.set("calls", hex(calls)); c.set("f", *in_range<unsigned>(0, 32)); c.set("hi", *in_range<unsigned>(0, 2)); c.set("secret", hex(*g::secret19())); c.set("birthday", (uint64_t)*g::birthday()); c.set("coin", (uint64_t)*g::coin());
-        c.set("lang", REG->at(*g::lang_index()).name_en); c.set("badcheck", *in_range<unsigned>(0, 2)); if (*in_range<int>(0, 32) == 0) c.set("reinject", 1); if (*in_range<int>(0, 8) == 0) c.set("late", *in_range<unsigned>(0, 3000));
+        c.set("lang", REG->at(*g::lang_index()).name_en); c.set("badcheck", *in_range<unsigned>(0, 2)); if (*in_range<int>(0, 32) == 0) c.set("reinject", 1); if (*in_range<int>(0, 8) == 0) c.set("late", *in_range<unsigned>(0, 3000)); if (*in_range<int>(0, 16) == 0) c.set("otherthread", 1);
         set_current(c); std::string m = oracle(c); if (!m.empty()) VF_FAIL(c, m);
     });
 }
